@@ -401,6 +401,10 @@ func SuspendingInitProgram() diffrun.Program {
 	mod := diffrun.ModName(name)
 	files := susp.VerifFiles()
 	files["dep/dep.go"] = "package dep\n\nimport \"" + mod + "/verif\"\n\ntype Int = verif.Int\n\nvar D1 = verif.Y(1) + d2\nvar d2 = verif.TrI(\"d2=\", verif.Y(2))\n\nfunc init() { verif.Tr(\"dep.init\"); verif.Y(3); verif.Tr(\"dep.init.end\") }\n\nfunc init() { verif.TrI(\"dep.init2=\", D1) }\n"
-	files["main.go"] = "package main\n\nimport (\n\t\"" + mod + "/dep\"\n\t\"" + mod + "/verif\"\n)\n\ntype Int = verif.Int\n\nvar m1 = verif.TrI(\"m1=\", dep.D1+verif.Y(4))\nvar m2 = func() Int { defer verif.Tr(\"m2.defer\"); return verif.Y(5) + m3 }()\nvar m3 = verif.TrI(\"m3=\", verif.Y(6))\n\nfunc init() {\n\tverif.Tr(\"main.init\")\n\tfor i := 0; i < 2; i++ {\n\t\tverif.Y(7 + i)\n\t}\n\tverif.Tr(\"main.init.end\")\n}\n\nfunc main() {\n\tverif.TrI(\"main=\", m1+m2+m3)\n\tverif.Done(\"C10/suspinit\")\n}\n"
+	// a chain main -> mid -> leaf: only leaf suspends while it is initialised, mid has nothing blocking of its own
+	files["leaf/leaf.go"] = "package leaf\n\nimport \"" + mod + "/verif\"\n\ntype Int = verif.Int\n\nvar L1 = verif.Y(10) + verif.TrI(\"leaf.L1=\", 1)\n\nfunc init() { verif.Tr(\"leaf.init\"); verif.Y(11); verif.Tr(\"leaf.init.end\") }\n"
+	files["mid/mid.go"] = "package mid\n\nimport (\n\t\"" + mod + "/leaf\"\n\t\"" + mod + "/verif\"\n)\n\nvar V = verif.TrI(\"mid.V=\", leaf.L1+1)\n\nfunc init() { verif.Tr(\"mid.init\") }\n"
+	files["mid2/mid2.go"] = "package mid2\n\nimport (\n\t\"" + mod + "/mid\"\n\t\"" + mod + "/verif\"\n)\n\nvar W = verif.TrI(\"mid2.W=\", mid.V+1)\n"
+	files["main.go"] = "package main\n\nimport (\n\t\"" + mod + "/dep\"\n\t\"" + mod + "/mid2\"\n\t\"" + mod + "/verif\"\n)\n\ntype Int = verif.Int\n\nvar m0 = verif.TrI(\"m0=\", mid2.W)\nvar m1 = verif.TrI(\"m1=\", dep.D1+verif.Y(4))\nvar m2 = func() Int { defer verif.Tr(\"m2.defer\"); return verif.Y(5) + m3 }()\nvar m3 = verif.TrI(\"m3=\", verif.Y(6))\n\nfunc init() {\n\tverif.Tr(\"main.init\")\n\tfor i := 0; i < 2; i++ {\n\t\tverif.Y(7 + i)\n\t}\n\tverif.Tr(\"main.init.end\")\n}\n\nfunc main() {\n\tverif.TrI(\"main=\", m0+m1+m2+m3)\n\tverif.Done(\"C10/suspinit\")\n}\n"
 	return diffrun.Program{Name: name, Files: files, NoHelpers: true}
 }
